@@ -68,6 +68,12 @@ def gen(rng, tier):
             if len(set(vals)) < int(deg) + 2:
                 f = f.replace(f"poly({var}, {deg})", var)
         extra = {}
+        if rng.random() < 0.12:
+            xs_ = sorted(set(next(col["values"] for col in fr["columns"] if col["name"] == "z")))
+            if len(xs_) >= 5:
+                # two interior data values as knots; the boundary knots come from the TRAINING data
+                extra["kn"] = [xs_[len(xs_) // 3], xs_[(2 * len(xs_)) // 3]]
+                f = f + rng.choice([" + bs(z, knots=kn)", " + f:bs(z, knots=kn)", " + (bs(z, knots=kn) | g)"])
         if "lv" in f:
             lv = gen_dm.frame_levels(fr, "f")
             rng.shuffle(lv)
